@@ -181,7 +181,7 @@ theorem nbTwice_mono (ks : List Byte) (g g' : Byte → Nat) (h : ∀ k, g k ≤ 
   exact Nat.le_trans hk (h k)
 
 /-- the naive count of upper-cased characters occurring at least twice among `cs` -/
-def twice (cs : List Byte) : Nat := nbTwice Spec.allBytes (Spec.occ Spec.upper cs)
+def twice (cs : List Byte) : Nat := nbTwice Spec.allBytes (Spec.occ Spec.upperCase cs)
 
 theorem twice_append_mono (cs ds : List Byte) : twice cs ≤ twice (cs ++ ds) := by
   apply nbTwice_mono
@@ -193,7 +193,7 @@ theorem twice_append_mono (cs ds : List Byte) : twice cs ≤ twice (cs ++ ds) :=
 /-- invariant of the loop: `counts` is the table of the kept characters seen so far (`done`), `nbinf` the
 number of characters counted at least twice, still below two -/
 theorem informativeLoop_inv (all : Byte) (col done : List Byte) (hlt : twice done < 2) :
-    informativeLoop all col (Spec.countTable Spec.upper done) (twice done) =
+    informativeLoop all col (Spec.countTable Spec.upperCase done) (twice done) =
       decide (twice (done ++ col.filter fun s => s != 45 && s != 46 && s != all) ≥ 2) := by
   induction col generalizing done with
   | nil =>
@@ -205,18 +205,18 @@ theorem informativeLoop_inv (all : Byte) (col done : List Byte) (hlt : twice don
     rw [hk]
     by_cases hkeep : (s != 45 && s != 46 && s != all) = true
     · simp only [hkeep, if_true, List.filter_cons_of_pos]
-      have hb : bump (toUpper s) (Spec.countTable Spec.upper done) = Spec.countTable Spec.upper (done ++ [s]) := by
+      have hb : bump (toUpper s) (Spec.countTable Spec.upperCase done) = Spec.countTable Spec.upperCase (done ++ [s]) := by
         unfold Spec.countTable
         rw [← tab_allBytes, ← tab_allBytes, bump_tab _ allBytes_pairwise _ _ (mem_allBytes _)]
         apply tab_congr
         intro k _
         rw [occ_append_singleton]; rfl
       rw [hb, find_countTable]
-      have hocc : Spec.occ Spec.upper (done ++ [s]) (toUpper s) = Spec.occ Spec.upper done (Spec.upper s) + 1 := by
+      have hocc : Spec.occ Spec.upperCase (done ++ [s]) (toUpper s) = Spec.occ Spec.upperCase done (Spec.upperCase s) + 1 := by
         rw [occ_append_singleton]; simp [incr, upper_eq]
-      have hpos : Spec.occ Spec.upper (done ++ [s]) (toUpper s) > 0 := by omega
+      have hpos : Spec.occ Spec.upperCase (done ++ [s]) (toUpper s) > 0 := by omega
       simp only [hpos, if_true, Option.map_some, Option.getD_some]
-      have htw : twice (done ++ [s]) = twice done + (if Spec.occ Spec.upper done (Spec.upper s) + 1 == 2 then 1 else 0) := by
+      have htw : twice (done ++ [s]) = twice done + (if Spec.occ Spec.upperCase done (Spec.upperCase s) + 1 == 2 then 1 else 0) := by
         unfold twice
         rw [← nbTwice_incr _ allBytes_nodup _ _ (mem_allBytes _)]
         unfold nbTwice
@@ -225,7 +225,7 @@ theorem informativeLoop_inv (all : Byte) (col done : List Byte) (hlt : twice don
         intro k _
         rw [occ_append_singleton]
       rw [hocc]
-      have hnb : (if (Spec.occ Spec.upper done (Spec.upper s) + 1 == 2) = true then twice done + 1 else twice done) =
+      have hnb : (if (Spec.occ Spec.upperCase done (Spec.upperCase s) + 1 == 2) = true then twice done + 1 else twice done) =
           twice (done ++ [s]) := by
         rw [htw]; split <;> simp
       rw [hnb]
